@@ -122,6 +122,29 @@ def neutralise(src, keep):
 
 # ------------------------------------------------------------------------------------------ the check
 
+import re
+
+_HASH_LINE = re.compile(r"^([^=]*/_hash=)(.*)$")
+
+
+def canon_hashes(lines):
+    """The property fixes the *meaning* of `_hash` (same value iff same expression up to context), not its
+    spelling: values are renamed by order of first occurrence before comparing with the specification."""
+    seen = {}
+    out = []
+    for l in lines:
+        m = _HASH_LINE.match(l)
+        if m:
+            out.append(m.group(1) + "#%d" % seen.setdefault(m.group(2), len(seen)))
+        else:
+            out.append(l)
+    return out
+
+
+def property_equal(impl, spec):
+    return impl == spec or canon_hashes(impl) == canon_hashes(spec)
+
+
 class Checker:
     def __init__(self, ctx, drv, fa):
         self.ctx = ctx
@@ -156,7 +179,7 @@ class Checker:
             _, impl, _, spec = self.three(src)
         except (SyntaxError, ValueError, RecursionError):
             return False
-        return impl != spec
+        return not property_equal(impl, spec)
 
     @staticmethod
     def first_diff(a, b):
@@ -191,9 +214,12 @@ class Checker:
                             "first_lines": impl[:6]})
             return
         ctx.cov["disagreements_checked"] += 1
+        ok = property_equal(impl, spec)
         if impl != model:
-            self.model_mismatch.append((stream, name, src, self.first_diff(impl, model), impl == spec))
-        if impl != spec:
+            self.model_mismatch.append((stream, name, src, self.first_diff(impl, model), ok))
+        elif ok and impl != spec:
+            self.model_mismatch.append((stream, name, src, self.first_diff(impl, spec), ok))
+        if not ok:
             self.attribute(stream, name, src, tree, impl, model, spec)
 
     def attribute(self, stream, name, src, tree, impl, model, spec):
@@ -205,7 +231,7 @@ class Checker:
             still = self.fails(clean)
         except Exception:  # unparse corner case: treat as unexplained
             still, clean = True, src
-        if still or not feats or impl != model:
+        if still or not feats or not property_equal(impl, model):
             # not explained by the recorded findings (or the model does not even reproduce it)
             if len(self.novel) < 5:
                 self.novel.append((stream, name, clean if still else src, impl == model))
@@ -475,15 +501,16 @@ def run(ctx):
         "lines of the flat AST contain no newline (repr() of every scalar is single-line)",
         "model alphabet for \\d and \\w: ASCII",
     ]
-    if not ctx.violations and (not ctx.proofs_ok or ctx.broken):
+    if not local_known.unexplained(ctx) and (not ctx.proofs_ok or ctx.broken):
         ctx.violations.append({
             "no_input": True,
             "what": "a proof or the correspondence no longer checks",
-            "replay": {"kind": "no-failing-input-found", "no_longer_checks": ctx.broken,
+            "replay": {"kind": "no-failing-input-found", "no_longer_checks": sorted(set(ctx.broken)),
                        "build_errors": ctx.cov.get("build_errors"), "corr_replay": ctx.cov.get("corr_replay"),
                        "searched": "corpus + generated programs + sequences + token-level pass inputs: the implementation "
                                    "equals the specification on every input explored"},
         })
+    ctx.broken = sorted(set(ctx.broken))
     local_known.apply(ctx)
     return core.finish(ctx)
 
